@@ -76,11 +76,8 @@ func (h *NFSProcedureHandler) HandleCall(call *RPCCall, body io.Reader, authCtx 
 	// Acquire policy read lock. TryRLock fails if a policy update (Lock)
 	// is in progress, causing us to return JUKEBOX so clients retry.
 	if !handler.policyRWMu.TryRLock() {
-		// Policy drain in progress -- return NFSERR_JUKEBOX
-		var buf bytes.Buffer
-		xdrEncodeUint32(&buf, NFSERR_JUKEBOX)
-		reply.Data = buf.Bytes()
-		return reply, nil
+		// Policy drain in progress -- tell the client to retry later
+		return drainReply(call, reply), nil
 	}
 	// DO NOT defer RUnlock here -- the goroutine owns the lock so that
 	// drain-and-swap blocks until the goroutine's filesystem work finishes,
@@ -172,6 +169,60 @@ func (h *NFSProcedureHandler) HandleCall(call *RPCCall, body io.Reader, authCtx 
 		return nil, fmt.Errorf("operation timed out")
 	case result := <-replyChan:
 		return result, nil
+	}
+}
+
+// drainReply builds the reply for a call that arrives while a policy update
+// is draining in-flight requests. The reply must still be the result type of
+// the procedure that was called: NFS3ERR_JUKEBOX ("retry later") with the
+// procedure's resfail body for NFSv3, MNT3ERR_SERVERFAULT for MNT, and the
+// ordinary answers for calls that do not depend on the export policy or that
+// the server would reject anyway.
+func drainReply(call *RPCCall, reply *RPCReply) *RPCReply {
+	switch call.Header.Program {
+	case NFS_PROGRAM:
+		if call.Header.Version != NFS_V3 {
+			reply.AcceptStatus = PROG_MISMATCH
+			return reply
+		}
+		switch call.Header.Procedure {
+		case NFSPROC3_NULL:
+			return reply
+		case NFSPROC3_GETATTR:
+			return nfsErrorReply(reply, NFSERR_JUKEBOX)
+		case NFSPROC3_SETATTR, NFSPROC3_WRITE, NFSPROC3_CREATE, NFSPROC3_MKDIR, NFSPROC3_SYMLINK,
+			NFSPROC3_MKNOD, NFSPROC3_REMOVE, NFSPROC3_RMDIR, NFSPROC3_COMMIT:
+			return nfsErrorWithWcc(reply, NFSERR_JUKEBOX)
+		case NFSPROC3_RENAME:
+			return nfsErrorWithDoubleWcc(reply, NFSERR_JUKEBOX)
+		case NFSPROC3_LINK:
+			return nfsErrorWithPostOpAndWcc(reply, NFSERR_JUKEBOX)
+		case NFSPROC3_LOOKUP, NFSPROC3_ACCESS, NFSPROC3_READLINK, NFSPROC3_READ, NFSPROC3_READDIR,
+			NFSPROC3_READDIRPLUS, NFSPROC3_FSSTAT, NFSPROC3_FSINFO, NFSPROC3_PATHCONF:
+			return nfsErrorWithPostOp(reply, NFSERR_JUKEBOX)
+		default:
+			reply.AcceptStatus = PROC_UNAVAIL
+			return reply
+		}
+	case MOUNT_PROGRAM:
+		if call.Header.Version != 1 && call.Header.Version != MOUNT_V3 {
+			reply.AcceptStatus = PROG_MISMATCH
+			return reply
+		}
+		switch call.Header.Procedure {
+		case 0, 3, 4: // NULL, UMNT, UMNTALL: void results
+			return reply
+		case 1: // MNT
+			return nfsErrorReply(reply, 10006) // MNT3ERR_SERVERFAULT
+		case 2, 5: // DUMP, EXPORT: an empty list
+			return nfsErrorReply(reply, 0)
+		default:
+			reply.AcceptStatus = PROC_UNAVAIL
+			return reply
+		}
+	default:
+		reply.AcceptStatus = PROG_UNAVAIL
+		return reply
 	}
 }
 
